@@ -9,6 +9,7 @@ import (
 	"strings"
 	"time"
 
+	opentracing "github.com/opentracing/opentracing-go"
 	tchannel "github.com/uber/tchannel-go"
 	"github.com/uber/tchannel-go/simrt"
 )
@@ -244,6 +245,7 @@ type NodeOpts struct {
 	PayCap      int
 	OnPeerStatus func(*tchannel.Peer)
 	Handler     tchannel.Handler // optional channel-level handler override
+	Tracer      opentracing.Tracer
 }
 
 // Node is one real channel of the library under test.
@@ -286,6 +288,7 @@ func (w *World) addNode(o NodeOpts) *Node {
 		IdleCheckInterval:        o.IdleInterval,
 		OnPeerStatusChanged:      o.OnPeerStatus,
 		Handler:                  o.Handler,
+		Tracer:                   o.Tracer,
 		Dialer: func(ctx context.Context, network, hostPort string) (net.Conn, error) {
 			c, err := w.Net.Dial(ctx, host, hostPort)
 			if c != nil {
